@@ -822,6 +822,18 @@ func (e *Engine) opSigners() {
 		s0 := time.Now().Unix()
 		sig, serr := s.Sign(nil, data)
 		s1 := time.Now().Unix()
+		if as, ok := s.(ssh.AlgorithmSigner); ok && serr == nil && strings.Contains(s.PublicKey().Type(), "rsa") {
+			for _, alg := range []string{ssh.KeyAlgoRSASHA256, ssh.KeyAlgoRSASHA512} {
+				sig2, e2 := as.SignWithAlgorithm(nil, data, alg)
+				if e2 != nil {
+					e.disc([]string{"C10"}, "signer-sign-with-algorithm-fails", fmt.Sprintf("%s %s: %v", e.describe(string(s.PublicKey().Marshal())), alg, e2))
+				} else if sig2.Format != alg || s.PublicKey().Verify(data, sig2) != nil {
+					e.disc([]string{"C10"}, "signer-signature-with-algorithm-does-not-verify", fmt.Sprintf("%s %s: format %q", e.describe(string(s.PublicKey().Marshal())), alg, sig2.Format))
+				} else {
+					e.St.SignsVerified++
+				}
+			}
+		}
 		if _, isHard := e.m[string(s.PublicKey().Marshal())]; isHard {
 			// a hardware-certificate signer signs through the shim itself (with the plain key): that is a
 			// Sign operation and runs the filter once more
@@ -1363,6 +1375,19 @@ func (e *Engine) opForward() {
 	e.St.Forwarded++
 }
 
+// opNilKeys passes nil keys: every operation must refuse them with an error (a crash is caught by the caller's guard).
+func (e *Engine) opNilKeys() {
+	ub := e.snapshotU()
+	_, e1 := e.Shim.Sign(nil, []byte("x"))
+	e2 := e.Shim.Remove(nil)
+	e3 := e.Shim.AddHardCert(nil, "c")
+	e.log("nil-keys", "", fmt.Sprintf("%v|%v|%v", e1 != nil, e2 != nil, e3 != nil))
+	if e1 == nil || e2 == nil || e3 == nil {
+		e.disc([]string{"C10"}, "nil-key-accepted", fmt.Sprintf("sign err=%v remove err=%v add-hard-cert err=%v", e1, e2, e3))
+	}
+	e.checkPurgeU(ub, e.snapshotU(), 0, 0, "nil-key operations", nil)
+}
+
 func (e *Engine) opSleepUntilLapse() {
 	var target int64
 	for _, c := range e.Mat.Certs {
@@ -1397,6 +1422,9 @@ func (e *Engine) Run() {
 		{"list", w("list", 10), e.opList}, {"signers", w("signers", 6), e.opSigners}, {"sign", w("sign", 10), e.opSign},
 		{"add", w("add", 8), e.opAdd}, {"remove", w("remove", 5), e.opRemove}, {"remove-all", w("remove-all", 1), e.opRemoveAll},
 		{"add-hard-cert", w("add-hard-cert", 10), e.opAddHardCert}, {"direct-add", w("direct-add", 6), e.directAdd}, {"direct-remove", w("direct-remove", 4), e.directRemove},
+	}
+	if w("nil-keys", 0) > 0 {
+		ops = append(ops, wop{"nil-keys", w("nil-keys", 0), e.opNilKeys})
 	}
 	if e.Cfg.LockOps {
 		ops = append(ops, wop{"lock", w("lock", 6), e.opLock}, wop{"unlock", w("unlock", 8), e.opUnlock})
